@@ -258,7 +258,7 @@ def vec_at(ai, st, ref, key):
 
 
 def m_vec_new(ai, fr, st, bb, t, args, key):
-    return ArrV("vec", ci(0), BOT), st
+    return ArrV("vec", IntV(Lin.const(0), None, (0, U63)), BOT), st
 
 
 def m_vec_len(ai, fr, st, bb, t, args, key):
@@ -273,7 +273,9 @@ def m_vec_push(ai, fr, st, bb, t, args, key):
     if v is None:
         return UNIT, st
     el = args[1] if isinstance(v.elem, BotV) else summarise(st, v.elem, args[1], ("push", key))
-    nl = IntV(v.length.lin.addc(1)) if isinstance(v.length, IntV) else v.length
+    nl = IntV(v.length.lin.addc(1), None, (0, U63)) if isinstance(v.length, IntV) else v.length
+    if isinstance(nl, IntV):
+        st.assume(Lin.const(U63).sub(nl.lin))   # A-VEC: a Vec never holds more than isize::MAX elements
     ai.write_path(st, p, ArrV(v.kind, nl, el), False)
     return UNIT, st
 
@@ -283,7 +285,11 @@ def m_vec_resize(ai, fr, st, bb, t, args, key):
     if v is None:
         return UNIT, st
     el = args[2] if isinstance(v.elem, BotV) else summarise(st, v.elem, args[2], ("resize", key))
-    ai.write_path(st, p, ArrV(v.kind, args[1], el), False)
+    nl = args[1]
+    if isinstance(nl, IntV):
+        nl = IntV(nl.lin, None, (0, U63))
+        st.assume(Lin.const(U63).sub(nl.lin))   # A-VEC
+    ai.write_path(st, p, ArrV(v.kind, nl, el), False)
     return UNIT, st
 
 
@@ -324,7 +330,9 @@ def m_vec_extend(ai, fr, st, bb, t, args, key):
     if v is None:
         return UNIT, st
     ne = el if isinstance(v.elem, BotV) else (v.elem if isinstance(el, BotV) else summarise(st, v.elem, el, ("ext", key)))
-    ai.write_path(st, p, ArrV(v.kind, IntV(v.length.lin.add(ln.lin)), ne), False)
+    nl = IntV(v.length.lin.add(ln.lin), None, (0, U63))
+    st.assume(Lin.const(U63).sub(nl.lin))       # A-VEC
+    ai.write_path(st, p, ArrV(v.kind, nl, ne), False)
     return UNIT, st
 
 
@@ -341,7 +349,11 @@ def m_as_slice(ai, fr, st, bb, t, args, key):
 
 
 def m_from_elem(ai, fr, st, bb, t, args, key):
-    return ArrV("vec", args[1], args[0]), st
+    n = args[1]
+    if isinstance(n, IntV):
+        n = IntV(n.lin, None, (0, U63))
+        st.assume(Lin.const(U63).sub(n.lin))    # A-VEC
+    return ArrV("vec", n, args[0]), st
 
 
 def m_into_boxed(ai, fr, st, bb, t, args, key):
@@ -388,9 +400,14 @@ def m_slice_get(ai, fr, st, bb, t, args, key):
 def bounds_obl(ai, fr, st, bb, t, what, lins, tag):
     """Record one obligation: all of lins >= 0."""
     okk = all(st.prove(l) for l in lins)
+    how = "relational" if okk and not all(st.lb(l) >= 0 for l in lins) else ("interval" if okk else "")
+    if not okk and all(st.prove(l) or st.prove_cases(l) for l in lins):
+        okk = True
+        how = "cases"
     definitely_bad = any(st.iv(l)[1] < 0 for l in lins)
     verdict = "safe" if okk else ("fail" if definitely_bad else "unknown")
-    how = "relational" if okk and not all(st.lb(l) >= 0 for l in lins) else ("interval" if okk else "")
+    if verdict == "unknown":
+        how = "need %s; %s" % ("; ".join(repr(l) for l in lins), ai.explain(st, IntV(lins[0], ("ge", lins[0], Lin.const(0)))))
     ai.record(fr, bb, tag, "SliceIndex", what, t.span, verdict, how)
     for l in lins:
         st.assume(l)
